@@ -453,6 +453,15 @@ def string_front_end(ctx, prog):
                 sides.append((side, src(r), n))
         ok = ok and sorted(sides) == [("Left", "lhs", ("<Err>", "0")), ("Right", "rhs", ("<Err>", "0"))]
         why += "; error sides %s" % sorted((a, b) for a, b, c in sides)
+        # every Ok payload is the result of that one comparison (no constant / pre-filtered answer)
+        oks = []
+        for bi, bj, s in f.stmts():
+            if s["s"] == "assign" and s["rv"]["r"] == "agg" and s["rv"]["kind"].get("variant") == "Ok" and f.locals[s["lhs"]["l"]]["ty"].startswith("core::result::Result<u32"):
+                oks.append(strip(sy.operand(s["rv"]["ops"][0])))
+        good = [e for e in oks if e[0] == "call" and e[1].endswith("FuzzyHashData<S1, S2, true>>::compare") and e[3] == cmps[0][0]]
+        if len(oks) != 1 or len(good) != 1:
+            ok = False
+            why += "; Ok payloads: %s" % [show(e)[:60] for e in oks]
     ctx.ob(R, "ssdeep::compare(lhs, rhs) = Ok(parse::<LongFuzzyHash>(lhs)?.compare(parse::<LongFuzzyHash>(rhs)?)) with Left/Right error tags", ok, why, f.loc())
 
 
